@@ -82,6 +82,14 @@ Example C08_shape_example :
   rshape (np_lift2 n_add m (V1 [NI 1; NI 2; NI 3])) = Some [2; 3]%nat /\ rshape (np_lift2 n_mul m m) = Some [2; 3]%nat.
 Proof. cbv zeta. repeat split; reflexivity. Qed.
 
+(* Integer results are int64 on both backends: the model's integers are unbounded Z and the differential
+   compares integer elements exactly, which presupposes that the torch wrappers behind np.less / greater /
+   maximum ... never narrow an integer result (no .to(torch.int32), .int(), .short()).  Pinned fact regenerated from
+   TorchBackend._wrap_torch_func; a narrowing makes this obligation fail. *)
+Theorem C08_torch_wrappers_keep_int64 : torch_wrappers_keep_int64 = true.
+Proof. reflexivity. Qed.
+Print Assumptions C08_torch_wrappers_keep_int64.
+
 (* T8.single — forward error of evaluating the + * core (a reduction +/ or */ is a fold of Add / Mul) on
    non-negative data with one rounding per stored operand and per operation, for ANY rounding operator of
    relative error u (binary32 round-to-nearest: u = 2^-24, barring overflow/underflow): the rounded value lies
